@@ -17,6 +17,10 @@ Static clauses decided (necessary conditions of C24):
  RANGE    sign analysis (abstract interpretation over {None, >=0, any}) of combine_limit_and_offset: on every path the
           combined limit is None or non-negative (a negative LIMIT means "unlimited" to SQLite and MySQL); limit 0 drops the
           offset.
+ CHAIN    "chained order_by behaves like chained stable sorts": the most recent order_by is the most significant key, so every
+          function of SQLTranslator that adds terms to an existing ORDER BY list (order_by_numbers, order_by_attributes, the
+          lambda/string path in apply_lambda -- siblings) PREPENDS them (`order[:0] = new_terms`); appending makes the later call the
+          least significant key.  The list is copied before it is changed (the translator is shared through the cache).
 """
 NOT_DECIDED = "the arithmetic of nested limit/offset combination beyond sign; aggregates; random()"
 
@@ -37,18 +41,52 @@ def run(ctx):
     ctx.need(set(ROWSET) <= rs, 'C24: construct_sql_ast no longer reads %s' % (set(ROWSET) - rs))
     gd = cg.cfg(dele)
     rets = [x for x in gd.nodes if x.kind == 'stmt' and isinstance(x.ast, ast.Return)]
+    par = {}
+    for x in ast.walk(dele.node):
+        for ch in ast.iter_child_nodes(x): par[id(ch)] = x
     def consulted(f):
-        # read in a branch condition, or in a statement every return is dominated by (a read buried in one branch does not count)
-        for x in gd.nodes:
-            if x.ast is None: continue
-            if any(isinstance(a, ast.Attribute) and a.attr == f and dotted(a.value) == dele.recv for a in x.walk()):
-                if x.kind == 'test' or isinstance(x.ast, ast.Assert) or all(gd.dominated(r, [x]) for r in rets): return True
+        """the field shapes the statement: it is read in a data position that builds the SQL AST (inside a list display, a list
+        concatenation, an append/extend argument, the iterable of a loop), or queries with that field set are rejected (a test on
+        the field whose true branch cannot reach a return).  A read that only steers a branch or sits in an assert does not count."""
+        def dead(node):
+            # inside `if v:` where v is only ever assigned the constant False
+            x = node
+            while id(x) in par:
+                p_ = par[id(x)]
+                if isinstance(p_, ast.If) and isinstance(p_.test, ast.Name) and x in p_.body:
+                    defs = [st.value for st in walk_no_nested(dele.node) if isinstance(st, ast.Assign) and any(dotted(t) == p_.test.id for t in st.targets)]
+                    if defs and all(isinstance(d_, ast.Constant) and not d_.value for d_ in defs): return True
+                x = p_
+            return False
+        def data_use(a, depth=0):
+            if dead(a) or depth > 3: return False
+            x = a
+            while id(x) in par and not isinstance(par[id(x)], ast.stmt):
+                p_ = par[id(x)]
+                if isinstance(p_, ast.List) or (isinstance(p_, ast.BinOp) and isinstance(p_.op, ast.Add)) or \
+                        (isinstance(p_, ast.Call) and isinstance(p_.func, ast.Attribute) and p_.func.attr in ('append', 'extend') and x in p_.args):
+                    return True
+                x = p_
+            st = par.get(id(x))
+            if isinstance(st, ast.For) and x is st.iter: return True
+            if isinstance(st, ast.Assign) and x is st.value and len(st.targets) == 1 and isinstance(st.targets[0], ast.Name):
+                v = st.targets[0].id      # the value travels on in a local variable
+                return any(data_use(u, depth + 1) for u in walk_no_nested(dele.node) if isinstance(u, ast.Name) and u.id == v and isinstance(u.ctx, ast.Load)
+                           and u.lineno >= st.lineno)
+            return False
+        for a in walk_no_nested(dele.node):
+            if isinstance(a, ast.Attribute) and a.attr == f and dotted(a.value) == dele.recv and isinstance(a.ctx, ast.Load) and data_use(a): return True
+        for t in gd.nodes:
+            if t.kind == 'test' and any(isinstance(a, ast.Attribute) and a.attr == f and dotted(a.value) == dele.recv for a in t.walk()):
+                ts = [y for y, lab in gd.succ[t.id] if lab == 'T']
+                r = gd.reach(ts)
+                if ts and not any(x.id in r for x in rets) and gd.exit.id not in r: return True
         return False
     for f in ROWSET:
         ok = f in rd and consulted(f)
         ctx.ob('C24-SIBLING.bulk-delete-consults-row-set-field', dele, 'translator.' + f, ok,
-               '' if ok else 'construct_sql_ast shapes the selected rows with translator.%s but construct_delete_sql_ast never reads it: the bulk delete '
-               'removes rows the query does not select' % f, expected='use translator.%s or reject such queries' % f)
+               '' if ok else 'construct_sql_ast shapes the selected rows with translator.%s but construct_delete_sql_ast never puts it into its statement (nor rejects '
+               'such queries): the bulk delete removes rows the query does not select' % f, expected='use translator.%s or reject such queries' % f)
     # ---------------------------------------------------------------- DISTINCT
     g = cg.cfg(sel)
     ds = [x for x in g.nodes if x.kind == 'stmt' and isinstance(x.ast, ast.Assign) and any(dotted(t) == 'distinct' for t in x.ast.targets)]
@@ -133,8 +171,33 @@ def run(ctx):
     ok = bool(z) and any(x.kind == 'stmt' and norm(x.ast) == 'offset = None' and x.id in g.reach([y for y, lab in g.succ[z[0].id] if lab == 'T']) for x in g.nodes)
     ctx.ob('C24-RANGE.zero-limit-drops-offset', cl, z[0].stmt if z else cl.node, ok, '' if ok else 'limit 0 keeps an offset')
 
+    # ---------------------------------------------------------------- CHAIN
+    nch = 0
+    tr = repo.cls('pony.orm.sqltranslation', 'SQLTranslator')
+    for f in repo.rule_funcs():
+        if f.cls is not tr or f.parent is not None: continue
+        ordernames = {'translator.order'} | {dotted(t) for st in walk_no_nested(f.node) if isinstance(st, ast.Assign) and 'translator.order' in [dotted(x) for x in st.targets]
+                                              for t in st.targets if isinstance(t, ast.Name)}
+        growers = []
+        for st in walk_no_nested(f.node):
+            if isinstance(st, ast.Assign) and any(isinstance(t, ast.Subscript) and dotted(t.value) in ordernames for t in st.targets): growers.append((st, 'slice'))
+            if isinstance(st, ast.Expr) and isinstance(st.value, ast.Call) and isinstance(st.value.func, ast.Attribute) and st.value.func.attr in ('append', 'extend', 'insert') \
+                    and dotted(st.value.func.value) in ordernames: growers.append((st, st.value.func.attr))
+            if isinstance(st, ast.AugAssign) and dotted(st.target) in ordernames: growers.append((st, 'augassign'))
+        for st, how in growers:
+            nch += 1
+            ok = how == 'slice' and any(isinstance(t, ast.Subscript) and isinstance(t.slice, ast.Slice) and t.slice.lower is None and isinstance(t.slice.upper, ast.Constant)
+                                        and t.slice.upper.value == 0 for t in st.targets)
+            ok = ok or (how == 'insert' and isinstance(st.value.args[0], ast.Constant) and st.value.args[0].value == 0)
+            ctx.ob('C24-CHAIN.later-order_by-is-the-more-significant-key', f, st, ok,
+                   '' if ok else '%s adds its ORDER BY terms with `%s`, i.e. after the terms of earlier order_by calls; its siblings prepend (`order[:0] = ...`): '
+                   'q.order_by(a).order_by(b) then sorts by a first, unlike sorted(sorted(rows, key=a), key=b)' % (f.qual, norm(st)), node=st, expected='order[:0] = new_order')
+    ctx.floor('C24-CHAIN', nch, 3, 'statements that add terms to an existing ORDER BY list')
+
 
 MUTANTS = [
+    dict(id='C24-s9', file='pony/orm/sqltranslation.py', fn='SQLTranslator.construct_delete_sql_ast', old="                if translator.having_conditions:\n                    subquery_ast.append([ 'HAVING' ] + translator.having_conditions)\n", new="", expect='C24-SIBLING'),
+    dict(id='C24-c1', file='pony/orm/sqltranslation.py', fn='SQLTranslator.order_by_numbers', old="        order[:0] = new_order", new="        order.extend(new_order)", expect='C24-CHAIN'),
     dict(id='C24-m1', file='pony/orm/sqltranslation.py', fn='combine_limit_and_offset', old='            limit = max(0, limit - offset2)', new='            limit -= offset2', expect='C24-RANGE'),
     dict(id='C24-m2', file='pony/orm/sqltranslation.py', fn='combine_limit_and_offset', old='            limit = max(0, limit - offset2)', new='            limit = max(limit - offset2, 0)', benign=True),
     dict(id='C24-m3', file='pony/orm/core.py', fn='Query.__getitem__', old='        if start >= stop:\n            return query._fetch(limit=0)\n', new='', expect='C24-SLICE.window'),
